@@ -285,8 +285,10 @@ def obligations(tier):
     shapes = [(n,) for n in range(1, 8)] + list(itertools.product(range(1, 5), repeat=2))
     if quick:
         shapes += [(4, 5, 3), (5, 5, 2), (2, 2, 2), (1, 3, 4), (2, 1, 4), (1, 1, 3)]  # 3-exon representatives incl. 1-bp inner exons (all 64 shapes: thorough)
+        shapes += [(2, 1, 4, 4)]  # 4 exons: two re-synchronisations, the first one dropping a 1-bp exon
     else:
         shapes += list(itertools.product(range(1, 5), repeat=3)) + [(4, 5, 3), (5, 5, 2)]
+        shapes += [(2, 1, 4, 4), (3, 1, 1, 4), (1, 2, 1, 5), (4, 1, 2, 3), (2, 2, 1, 4)]
         shapes += [s for s in itertools.product(range(1, 8), repeat=2) if max(s) > 4]
     for strand in (PLUS, MINUS):
         sn = sname(strand)
